@@ -52,7 +52,7 @@
 From Coq Require Import List ZArith Bool String.
 From Verif Require Import Lib.UrlTree Lib.Regex.
 From Verif Require Import C14.Reader C14.Model C14.Proofs C14.Cover C14.Bridge C14.Literal C14.Found C14.Syntax.
-From Verif Require Import C14.Reload C14.ReloadProofs C14.ReloadLeak.
+From Verif Require Import C14.Reload C14.ReloadProofs C14.ReloadLeak C14.ReloadReq.
 From Verif Require C03.Trie C03.Model C03.Spec C03.SpecLocal C03.Proofs C13.Model.
 Import ListNotations.
 Open Scope Z_scope.
@@ -730,3 +730,86 @@ Example C14_demo_unmanage_effective :
   /\ spaced ByExpr [Load Flows (flows_req demo); Advance ttl; Load Flows (flows_req demo_b); Tick 0;
                     Load Flows (flows_req demo)] init = true.
 Proof. vm_compute. repeat split; reflexivity. Qed.
+
+(* ==================================================================== *)
+(* Reloads that change what a flow's processors REQUIRE                  *)
+(* (C14.ReloadReq: a registration = expression + {body, request capture}) *)
+
+(* ---- requirements are irrelevant to who is managed: the history with
+        requirements (comparison of registrations BY EXPRESSION = the code),
+        requirements forgotten, is the history of C14.Reload — same clock, same
+        proxy state, same pending un-managements, for ALL histories ---- *)
+Theorem C14_requirements_irrelevant : forall ops,
+  erase_state (qrun SameExpr ops rinit) = run Recheck (map erase_op ops) init.
+Proof. intros ops. exact (qrun_erase ops rinit). Qed.
+Print Assumptions C14_requirements_irrelevant.
+
+(* ---- hence, whatever the requirements of the flows loaded and however they
+        change from one reload to the next: after any history the proxy holds
+        what the configuration in force registers ---- *)
+Theorem C14_managed_after_reloads_any_requirements : forall ops,
+  managed_ok (erase_state (qrun SameExpr ops rinit)) = true.
+Proof. intros ops. rewrite C14_requirements_irrelevant. apply C14_managed_after_reloads. Qed.
+Print Assumptions C14_managed_after_reloads_any_requirements.
+
+Theorem C14_no_bypass_flows_after_reloads_any_requirements : forall ops frs x f,
+  r_cur (qrun SameExpr ops rinit) = Some (flows_rreq frs) ->
+  C03.Model.load_ok (map fst frs) = true ->
+  In f (C03.Model.get_flow (C03.Proofs.tree_of (map fst frs)) x) ->
+  C03.SpecLocal.kc_at (map fst frs) f (C03.Proofs.url_of x) = true ->
+  url_ok_exact (C03.Model.f_url f) (C03.Model.t_url x) = true ->
+  proxy_managed (r_px (qrun SameExpr ops rinit)) (C03.Model.t_method x) (C03.Model.t_url x) = true.
+Proof.
+  intros ops frs x f Hcur Hload Hsel Hkc Hok.
+  change (r_px (qrun SameExpr ops rinit)) with (s_px (erase_state (qrun SameExpr ops rinit))).
+  rewrite C14_requirements_irrelevant.
+  apply C14_no_bypass_flows_after_reloads with (fs := map fst frs) (f := f); try assumption.
+  rewrite <- C14_requirements_irrelevant. cbn [erase_state s_cur]. rewrite Hcur.
+  cbn [option_map]. rewrite flows_rreq_erase. reflexivity.
+Qed.
+Print Assumptions C14_no_bypass_flows_after_reloads_any_requirements.
+
+Theorem C14_stale_expressions_unmanaged_any_requirements : forall ops,
+  no_leak (erase_state (qrun SameExpr ops rinit)) = true.
+Proof. intros ops. rewrite C14_requirements_irrelevant. apply C14_stale_expressions_unmanaged. Qed.
+Print Assumptions C14_stale_expressions_unmanaged_any_requirements.
+
+(* ---- registrations compared "by value" (same expression AND same
+        requirements; seeded change C14-9): a reload that keeps the filter and only
+        drops the body-reading processor schedules the old registration for
+        un-management, the re-check does not protect it (other requirements =
+        another registration), DELETE /managed_endpoint removes the expression
+        the configuration in force has just registered ---- *)
+Definition C14_managed_after_reloads_same_requirements_full : Prop :=
+  forall ops, managed_ok (erase_state (qrun SameExprReq ops rinit)) = true.
+Theorem C14_managed_after_reloads_same_requirements_full_refuted :
+  ~ C14_managed_after_reloads_same_requirements_full.
+Proof.
+  intro H.
+  specialize (H [QLoad Flows (flows_rreq [(mf 0 "api.demo.com/orders/{id}" ["GET"], (true, false))]);
+                 QLoad Flows (flows_rreq [(mf 0 "api.demo.com/orders/{id}" ["GET"], (false, false))]);
+                 QAdvance ttl]).
+  vm_compute in H. discriminate.
+Qed.
+Print Assumptions C14_managed_after_reloads_same_requirements_full_refuted.
+
+(* non-vacuity: the same history under the code's comparison — the filter stays
+   managed, nothing was scheduled; with a filter leaving at the same reload its
+   expression (and only it) is un-managed at the TTL; under "by value" the
+   transaction of the flow in force is not managed any more *)
+Definition req_a : list (C03.Model.flow * (bool * bool)) :=
+  [ (mf 0 "api.demo.com/orders/{id}" ["GET"], (true, false)); (mf 1 "b.org/y" ["GET"], (false, true)) ].
+Definition req_b : list (C03.Model.flow * (bool * bool)) :=
+  [ (mf 0 "api.demo.com/orders/{id}" ["GET"], (false, false)) ].
+Definition req_history : list rqop :=
+  [ QLoad Flows (flows_rreq req_a); QLoad Flows (flows_rreq req_b); QAdvance ttl ].
+Example C14_demo_requirements :
+  r_cur (qrun SameExpr req_history rinit) = Some (flows_rreq req_b)
+  /\ rq_eps (flows_rreq req_a) <> rq_eps (flows_rreq req_b)
+  /\ strs_same (p_map (r_px (qrun SameExpr req_history rinit))) (q_eps (erase (flows_rreq req_b))) = true
+  /\ proxy_managed (r_px (qrun SameExpr req_history rinit)) (bs "GET") (bs "api.demo.com/orders/1017") = true
+  /\ proxy_managed (r_px (qrun SameExpr req_history rinit)) (bs "GET") (bs "b.org/y") = false
+  /\ r_pend (qrun SameExpr req_history rinit) = []
+  /\ p_map (r_px (qrun SameExprReq req_history rinit)) = []
+  /\ proxy_managed (r_px (qrun SameExprReq req_history rinit)) (bs "GET") (bs "api.demo.com/orders/1017") = false.
+Proof. vm_compute. repeat split; try reflexivity. discriminate. Qed.
